@@ -38,6 +38,10 @@ class RefServer:
         self.login_name = None
         self.errors = []
         self.key = getattr(rsakeys, 'RSA_' + cfg.get('rsa', '1024'))
+        # login-state ids (stable in every release; the 1.13 snapshots 385..390 shift them: override)
+        self.ids = dict(disconnect=0, encreq=1, success=2, compress=3, plugin=4, start=0, encresp=1,
+                        plugresp=2)
+        self.ids.update(cfg.get('login_ids', {}))
         cfg.setdefault('servers', []).append(self)
 
     # ---------------------------------------------------------------- output
@@ -113,10 +117,10 @@ class RefServer:
         elif self.state == 'status':
             self.on_status(pid, payload)
         elif self.state == 'login':
-            if pid == 0x00:
+            if pid == self.ids['start'] and self.login_name is None:
                 self.login_name, _ = rc.read_string(payload, 0)
                 self.run_script()
-            elif pid == 0x01 and self.waiting_enc is not None:
+            elif pid == self.ids['encresp'] and self.waiting_enc is not None:
                 sl, p = rc.read_varint(payload, 0)
                 es = payload[p:p + sl]
                 tl, p2 = rc.read_varint(payload, p + sl)
@@ -155,26 +159,27 @@ class RefServer:
             step = self.script.pop(0)
             k = step[0]
             if k == 'compress':
-                self.send_packet(0x03, rc.varint(step[1] % 2 ** 32 if step[1] < 0 else step[1]))
+                self.send_packet(self.ids['compress'], rc.varint(step[1] % 2 ** 32 if step[1] < 0 else step[1]))
                 self.compress_out = step[1]
                 self.compress_in = step[1]
             elif k == 'encrypt':
                 sid, token = step[1], step[2]
-                self.send_packet(0x01, rc.string(sid) + rc.varint(len(self.key['der'])) + self.key['der']
+                self.send_packet(self.ids['encreq'], rc.string(sid) + rc.varint(len(self.key['der'])) + self.key['der']
                                  + rc.varint(len(token)) + token)
                 self.waiting_enc = token
                 return
             elif k == 'plugin':
-                self.send_packet(0x04, rc.varint(step[1]) + rc.string(step[2]) + step[3])
+                self.send_packet(self.ids['plugin'], rc.varint(step[1]) + rc.string(step[2]) + step[3])
             elif k == 'success':
                 u = '12345678-1234-5678-1234-567812345678'
-                lay = rp.layout('login_success', v)
-                body = (bytes.fromhex(u.replace('-', '')) if lay[0][1] == 'uuid' else rc.string(u)) \
+                binary = self.cfg['uuid_binary'] if 'uuid_binary' in self.cfg else \
+                    rp.layout('login_success', v)[0][1] == 'uuid'
+                body = (bytes.fromhex(u.replace('-', '')) if binary else rc.string(u)) \
                     + rc.string(self.login_name or 'x')
-                self.send_packet(0x02, body)
+                self.send_packet(self.ids['success'], body)
                 self.state = 'play'
             elif k == 'disconnect':
-                self.send_packet(0x00, rc.string(step[1]))
+                self.send_packet(self.ids['disconnect'], rc.string(step[1]))
                 self.close()
             elif k == 'keepalive':
                 wide = rp.layout('keep_alive_cb', v)[0][1] == 'i64'
